@@ -2,6 +2,7 @@
 grayscale expansion bounds and ordering, exceptional release, checked reads and
 header-loop progress, row padding / stride / channel-order agreement between
 loader and saver, PNG chunk protocol, dispatch tables)."""
+import re
 from ast_ import *
 from path import *
 from exc import *
@@ -308,11 +309,15 @@ def run(ctx):
                 tested = True
             if p is not None and p.get('kind') == 'VarDecl':
                 # the variable is compared later and the mismatch throws
-                vid = p['id']
+                vids = {p['id']}
+                for _ in range(3):      # values derived from it (a named test result) count as well
+                    for x in walk(lbody):
+                        if x.get('kind') == 'VarDecl' and kids(x) and x['id'] not in vids and any(y.get('kind') == 'DeclRefExpr' and (y.get('referencedDecl') or {}).get('id') in vids for y in walk(kids(x)[-1])):
+                            vids.add(x['id'])
                 for x in walk(lbody):
                     if x.get('kind') == 'IfStmt':
                         cond, then, els = if_parts(x)
-                        if any((ref_decl(y) or {}).get('id') == vid for y in walk(cond)) and not falls_through(then):
+                        if any(y.get('kind') == 'DeclRefExpr' and (y.get('referencedDecl') or {}).get('id') in vids for y in walk(cond)) and (not falls_through(then) or (els is not None and not falls_through(els))):
                             tested = True
             ctx.check(tested, R, '%s@%s' % (nm, src_text(c, 40)), c, 'result of %s is tested' % nm, 'the result of %s is ignored: a truncated file is not noticed here' % nm)
     # header loop progress
@@ -432,34 +437,54 @@ def run(ctx):
 
     def in_case(x, c, nxt_names=('PNG', 'default')):
         return any(a is c for a in ancestors(x))
-    bmp_subs = [s for s in data_subscripts(case_bmp) if not any(a is case_png for a in ancestors(s))]
-    ctx.require(len(bmp_subs) == 4, 'save_helper: BMP subscripts not found (%d)' % len(bmp_subs))
+    # every read of the pixel buffer in the BMP case, as (base, offset polynomial): named row pointers,
+    # hoisted strides and re-associated products are seen through (E-POLY)
+    from poly import Poly, p_coeff, p_add, p_str, p_const, p_mul, p_atom
+    PL = Poly(SV, u)
     chan = {}
-    for s in bmp_subs:
-        pf = nf(s['inner'][1])
-        row3 = '(' + ' * '.join(sorted(['3', 'this.width', 'y'])) + ')'
-        row4 = '(' + ' * '.join(sorted(['4', 'this.width', 'y'])) + ')'
-        ok = False
-        if pf == row4:
-            ok = True
-            k = None
-        else:
-            k = None
-            for kk in range(3):
-                terms = sorted([row3, 'x'] + ([str(kk)] if kk else []))
-                if pf == '(' + ' + '.join(terms) + ')':
-                    ok = True
-                    k = kk
-        ctx.check(ok, R, 'saver|row-stride|%s' % (('k=%s' % k) if k is not None else 'alpha-row'), s, 'row y starts at y*width*pixel_bytes (rows are contiguous in memory)',
-                  'saver reads the image at index %s; rows in memory are width*pixel_bytes apart with no padding, so this skews every row after the first (and runs past the buffer)' % pf)
-        if k is not None:
-            p = s.get('_p')
-            while p is not None and p.get('kind') != 'BinaryOperator':
-                p = p.get('_p')
-            if p is not None:
-                from guard import split_const
-                b_, kd = split_const(canon(strip(p['inner'][0])['inner'][1]))
-                chan[kd] = k
+    n_reads = 0
+    ROW = lambda k_: p_mul(p_mul(p_atom('this.width'), p_atom('y')), p_const(k_))
+    in_png = lambda x_: any(a is case_png for a in ancestors(x_))
+    # (1) byte-wise copies  dst[D] = pixels[S]
+    for x in walk(case_bmp):
+        if in_png(x) or x.get('kind') != 'BinaryOperator' or x.get('opcode') != '=':
+            continue
+        src = PL.lvalue(x['inner'][1])
+        dst = PL.lvalue(x['inner'][0])
+        if not src or not dst or not src[0].startswith('this.data.'):
+            continue
+        n_reads += 1
+        S, D = src[1], dst[1]
+        # the column variable: the atom other than y / width the destination offset depends on
+        cols = sorted({a for m in D for a in m} - {'y', 'this.width'})
+        kd = D.get((), 0)
+        lin = p_coeff(D, cols[0]) if len(cols) == 1 else None
+        diff = p_add(S, D, -1)
+        want = [p_add(ROW(3), p_const(2 - 2 * kk)) for kk in range(3)]
+        ok = lin is not None and 0 <= kd <= 2 and diff == want[kd]
+        ctx.check(ok, R, 'saver|row-stride|k=%s' % kd, x, 'file byte %d of a pixel <- memory byte %d of the same pixel in row y (rows width*3 apart)' % (kd, 2 - kd),
+                  'the saver copies pixels[%s] to row byte [%s]: rows in memory are width*3 bytes apart and BMP stores B,G,R, so the source must be y*width*3 + (column) + %s' % (p_str(S), p_str(D), '2/0/-2'))
+        if ok:
+            chan[kd] = 2 - kd
+        elif lin is not None and 0 <= kd <= 2 and p_coeff(diff, 'y') is not None:
+            d0 = diff.get((), 0)
+            chan[kd] = kd + d0 if isinstance(d0, int) else None
+    # (2) whole rows handed to the writer straight from the pixel buffer (32-bit form)
+    for c in walk(case_bmp):
+        if in_png(c) or c.get('kind') not in ('CallExpr', 'CXXOperatorCallExpr'):
+            continue
+        a_ = call_args(c) if c.get('kind') == 'CallExpr' else kids(c)[2:]
+        if len(a_) != 2:
+            continue
+        pt = PL.pointer(a_[0])
+        if not pt or not pt[0].startswith('this.data.'):
+            continue
+        n_reads += 1
+        ln = PL.poly(a_[1])
+        ok = pt[1] == ROW(4) and ln == p_mul(p_atom('this.width'), p_const(4))
+        ctx.check(ok, R, 'saver|row-stride|alpha-row', c, 'row y is the width*4 bytes at y*width*4',
+                  'the saver writes %s bytes from pixels[%s] as row y; a 32-bit row is the width*4 bytes at y*width*4' % (p_str(ln), p_str(pt[1])))
+    ctx.require(n_reads >= 2, 'save_helper: BMP pixel reads not found (%d)' % n_reads)
     # header quantities
     ih = [f for f in u.functions if f.get('name') == 'init_bmp_header']
     ctx.require(len(ih) == 1, 'init_bmp_header not found')
@@ -589,6 +614,13 @@ def run(ctx):
             if x.get('kind') == 'CXXRecordDecl' and x.get('completeDefinition'):
                 st = x
         fsz = sum(sizeof_type(dtype(f_)) or sizeof_type(qtype(f_)) or 0 for f_ in kids(st) if f_.get('kind') == 'FieldDecl') if st is not None else None
+        ln0 = next((y for y in walk(ln) if y.get('kind') == 'UnaryExprOrTypeTraitExpr'), None)
+        if lnv is None and ln0 is not None and ln0.get('kind') == 'UnaryExprOrTypeTraitExpr' and ln0.get('name') == 'sizeof' and st is not None:
+            of = {(ref_decl(y) or {}).get('id') for y in walk(ln0) if y.get('kind') == 'DeclRefExpr'}
+            arg = {(ref_decl(y) or {}).get('id') for y in walk(call_args(ih_)[1]) if y.get('kind') == 'DeclRefExpr'}
+            align1 = all((sizeof_type(dtype(f_)) or sizeof_type(qtype(f_))) == 1 or 'endian' in (dtype(f_) or '') or re.search(r'\b(be|le)_u?int', qtype(f_) or '') for f_ in kids(st) if f_.get('kind') == 'FieldDecl')
+            if of and of == arg and align1:
+                lnv = fsz      # sizeof the very object handed over; its fields are all alignment-1 types, so no padding
         ctx.check(lnv == 13 and fsz == 13, R, 'png|ihdr-13', ih_, 'IHDR is 13 bytes and the struct has 13 bytes of fields', 'IHDR chunk length %s, struct fields total %s' % (lnv, fsz))
         ct = [nf(x) for x in walk(case_png) if x.get('kind') == 'ConditionalOperator' and {int_value(x['inner'][1]), int_value(x['inner'][2])} == {6, 2}]
         ctx.check(ct == ['(this.has_alpha ? 6 : 2)'], R, 'png|colour-type', case_png, 'colour type 6 with alpha, 2 without', 'colour type expression: %s' % ct)
@@ -630,15 +662,35 @@ def run(ctx):
                 dp = [int_value(y['inner'][1]) for y in walk(then) if y.get('kind') == 'BinaryOperator' and y.get('opcode') == '=' and canon(y['inner'][0]) == 'new_depth']
                 tt[strip(r[2])['value'].strip('"')] = (fm[0] if fm else None, dp[0] if dp else None)
     ctx.check(tt == {'GRAYSCALE': ('GRAYSCALE_PPM', 3), 'GRAYSCALE_ALPHA': ('GRAYSCALE_PPM', 4), 'RGB': ('COLOR_PPM', 3), 'RGB_ALPHA': ('COLOR_PPM', 4)}, R, 'tupltype-table', L, 'TUPLTYPE table', 'TUPLTYPE table is %s' % tt)
-    thr = []
+    # channel width: the chain that assigns 8/16/32/64 is evaluated (E-TABLE) at every mask boundary
+    from peval import PEval as _PE, Undecided as _PU, Fault as _PF
+    chains = []
     for x in walk(lbody):
-        if x.get('kind') == 'IfStmt':
-            cond, then, els = if_parts(x)
-            r = relation(cond, True)
-            if r and canon(r[0]) == 'new_max_value' and r[1] == '>' and int_value(r[2]) is not None:
-                w_ = [int_value(y['inner'][1]) for y in walk(then) if y.get('kind') == 'BinaryOperator' and y.get('opcode') == '=' and canon(y['inner'][0]) == 'new_channel_width']
-                thr.append((int_value(r[2]), w_[0] if w_ else None))
-    ctx.check(sorted(thr) == [(0xFF, 16), (0xFFFF, 32), (0xFFFFFFFF, 64)], R, 'channel-width-thresholds', L, 'max value > mask(8/16/32) selects 16/32/64', 'thresholds are %s' % [(hex(a), b) for a, b in sorted(thr)])
+        if x.get('kind') == 'IfStmt' and not ((x.get('_p') or {}).get('kind') == 'IfStmt' and if_parts(x.get('_p'))[2] is x):
+            asg = [(ref_decl(y['inner'][0]), int_value(y['inner'][1])) for y in walk(x) if y.get('kind') == 'BinaryOperator' and y.get('opcode') == '=' and ref_decl(y['inner'][0]) is not None]
+            if len(asg) >= 4 and {v_ for _, v_ in asg} == {8, 16, 32, 64} and len({d_['id'] for d_, _ in asg}) == 1:
+                chains.append((x, asg[0][0]))
+    if len(chains) != 1:
+        ctx.undecided(R, 'channel-width-thresholds', L, 'the chain selecting the channel width (8/16/32/64) from the max value was not found (%d candidates)' % len(chains))
+    else:
+        chain_, cwd_ = chains[0]
+        inputs = {(ref_decl(y) or {}).get('id') for y in walk(if_parts(chain_)[0]) if y.get('kind') == 'DeclRefExpr'} - {None}
+        bad_ = None
+        if len(inputs) != 1:
+            ctx.undecided(R, 'channel-width-thresholds', chain_, 'the channel-width chain tests more than one variable')
+        else:
+            mvid = inputs.pop()
+            try:
+                for mv in (1, 2, 0xFE, 0xFF, 0x100, 0x101, 0xFFFE, 0xFFFF, 0x10000, 0x10001, 0xFFFFFFFE, 0xFFFFFFFF, 0x100000000, 0x100000001, (1 << 63), (1 << 64) - 1):
+                    env_ = {mvid: mv, cwd_['id']: ('uninit',)}
+                    _PE([u]).run([chain_], env_)
+                    want_ = 8 if mv <= 0xFF else 16 if mv <= 0xFFFF else 32 if mv <= 0xFFFFFFFF else 64
+                    if env_[cwd_['id']] != want_ and bad_ is None:
+                        bad_ = (mv, env_[cwd_['id']], want_)
+                ctx.check(bad_ is None, R, 'channel-width-thresholds', chain_, 'max value -> narrowest of 8/16/32/64 bits that holds it (16 boundary values evaluated)',
+                          'a max value of %s selects a channel width of %s bits; the narrowest width holding it is %s' % ((hex(bad_[0]), bad_[1], bad_[2]) if bad_ else ('', '', '')))
+            except (_PU, _PF) as e_:
+                ctx.undecided(R, 'channel-width-thresholds', chain_, 'the channel-width chain could not be evaluated (%s)' % e_)
     hdr = [strip(call_args(c)[2]).get('value', '') for c in walk(svb) if c.get('kind') == 'CallExpr' and call_name(c) == 'snprintf' and strip(call_args(c)[2]).get('kind') == 'StringLiteral']
     okp = len(hdr) == 2 and any(h.startswith('"P7\\nWIDTH %zu\\nHEIGHT %zu\\nDEPTH 4\\nMAXVAL %lu\\nTUPLTYPE RGB_ALPHA\\nENDHDR\\n') for h in hdr) and any(h.startswith('"P6 %zu %zu %lu\\n') for h in hdr)
     ctx.check(okp, R, 'ppm-headers', SV, 'P6 / P7 headers carry width, height, maxval (and RGB_ALPHA)', 'PPM header formats are %s' % hdr)
